@@ -46,6 +46,22 @@ func c01Oracle(c c01Case) error {
 	if got := append(append([]byte{}, suffix...), rest...); !bytes.Equal(got, it.After) {
 		return fmt.Errorf("text after the dump: %s", firstDiffBytes(it.After, got))
 	}
+	// The same dump with every option on: what the dump itself says must come out the same.
+	// (Path guessing probes the disk for every path element: sampled, and not for the huge
+	// paths that exist to cross the read buffer.)
+	if len(x) > 12000 || digestBytes(x)%4 != 0 {
+		return nil
+	}
+	full, _, err := stack.ScanSnapshot(bytes.NewReader(x), io.Discard, &stack.Opts{NameArguments: true, GuessPaths: true, AnalyzeSources: true, LocalGOROOT: runtime.GOROOT()})
+	if full == nil || (err != nil && err != io.EOF) {
+		return fmt.Errorf("with naming, path guessing and source analysis on: snapshot=%v err=%v", full != nil, err)
+	}
+	cmpLoose = true
+	e := cmpGoroutines(it.expected(), full.Goroutines)
+	cmpLoose = false
+	if e != nil {
+		return fmt.Errorf("with naming, path guessing and source analysis on: %v", e)
+	}
 	return nil
 }
 
@@ -70,7 +86,7 @@ var c01Dump = Check[c01Case]{
 	Prop: "C01", Name: "model",
 	Gen: func(t *rapid.T) c01Case {
 		o := StreamOpts{MinItems: 1, MaxItems: 1, NoRace: true,
-			Dump: DumpOpts{MaxG: 40, MaxFrames: 150, Variants: true, LongLines: true},
+			Dump: DumpOpts{MaxG: 40, MaxFrames: 150, Variants: true, LongLines: true, FreeInacc: true},
 			Junk: JunkOpts{MaxLines: 4, Binary: true}}
 		return c01Case{S: genStream(t, o)}
 	},
